@@ -41,6 +41,11 @@ type plant struct {
 	NoFile   bool   // the expected annotation has no file (FILE_NO_DELETE)
 	Syntax   bool   // a syntax error: `buf format` cannot parse the file
 	DeletesB bool
+	// Prescan: the syntax error sits in a package or import statement, i.e. in the part of a file that buf
+	// reads with its own scanner (before and apart from the compiler) whenever it needs the package or the
+	// imports of a file it does not compile, e.g. every file of the module for a .proto file reference with
+	// include_package_files=true.
+	Prescan bool
 }
 
 var plants = []plant{
@@ -55,7 +60,14 @@ var plants = []plant{
 	{ID: "M1", Kind: "compile", File: "b"},
 	{ID: "U1", Kind: "unformatted", File: "a"},
 	{ID: "U2", Kind: "unformatted", File: "b"},
+	// appended (the indices of the plants above are part of evidence files)
+	{ID: "S1", Kind: "compile", File: "b", Syntax: true, Prescan: true},  // malformed package statement
+	{ID: "S2", Kind: "compile", File: "b", Syntax: true, Prescan: true},  // malformed import statement
+	{ID: "S3", Kind: "compile", File: "a2", Syntax: true, Prescan: true}, // an additional file next to a.proto with a malformed package statement
 }
+
+// logicalPath is the module-relative path of the files a plant can edit.
+var logicalPath = map[string]string{"a": "a/v1/a.proto", "a2": "a/v1/a2.proto", "b": "b/v1/b.proto"}
 
 // render writes the workspace files for a set of plants (indices into plants). ok=false: the
 // combination is not meaningful (a plant edits the file another one deletes).
@@ -64,7 +76,7 @@ func render(set []int) (files map[string]string, ok bool) {
 	for _, i := range set {
 		has[plants[i].ID] = true
 	}
-	if has["K3"] && (has["L2"] || has["C2"] || has["M1"] || has["U2"]) {
+	if has["K3"] && (has["L2"] || has["C2"] || has["M1"] || has["U2"] || has["S1"] || has["S2"]) {
 		return nil, false
 	}
 	var a strings.Builder
@@ -93,9 +105,19 @@ func render(set []int) (files map[string]string, ok bool) {
 		a.WriteString("\nenum Extra {\n  EXTRA_ONE = 0;\n}\n")
 	}
 	files = map[string]string{"buf.yaml": bufYAML, "a/v1/a.proto": a.String()}
+	if has["S3"] {
+		files["a/v1/a2.proto"] = "syntax = \"proto3\";\n\npackage a..v1;\n\nmessage Sibling {}\n"
+	}
 	if !has["K3"] {
 		var b strings.Builder
-		b.WriteString("syntax = \"proto3\";\n\npackage b.v1;\n\nimport \"a/v1/a.proto\";\n")
+		if has["S1"] {
+			b.WriteString("syntax = \"proto3\";\n\npackage b..v1;\n\nimport \"a/v1/a.proto\";\n")
+		} else {
+			b.WriteString("syntax = \"proto3\";\n\npackage b.v1;\n\nimport \"a/v1/a.proto\";\n")
+		}
+		if has["S2"] {
+			b.WriteString("import nope;\n")
+		}
 		if has["M1"] {
 			b.WriteString("import \"nope/nope.proto\";\n")
 		}
